@@ -657,7 +657,9 @@ def oracle_C12(sc, obs, baseline=None):
     eps = 0.45 * u
     stops = stopped_intervals(sc, obs)
     if not stops:
-        return None
+        # no completed stop / continue pair -- also when a SIGTSTP was sent and nextest, instead of stopping,
+        # ran on to its end before the SIGCONT was due: "on SIGTSTP ... nextest stops itself"
+        return oracle_self_stop(sc, obs)
     w = oracle_jobcontrol(sc, obs)
     if w:
         return w
